@@ -77,7 +77,7 @@ std::thread_local! {
     static PANIC_ON_STUCK_REPEAT: Cell<bool> = const { Cell::new(false) };
     static EVENTS: RefCell<Vec<Event>> = const { RefCell::new(Vec::new()) };
     static LAST_FINAL: RefCell<Option<Final>> = const { RefCell::new(None) };
-    static VM_OPEN: RefCell<Vec<(String, usize)>> = const { RefCell::new(Vec::new()) };
+    static VM_OPEN: RefCell<Vec<(String, usize, u8)>> = const { RefCell::new(Vec::new()) };
     static VM_REENTRY: RefCell<Option<(String, usize)>> = const { RefCell::new(None) };
 }
 
@@ -118,7 +118,8 @@ pub fn last_final() -> Option<Final> {
     LAST_FINAL.with(|f| f.borrow().clone())
 }
 
-/// First VM rule entry that found the same rule already open at the same position.
+/// First VM rule entry that found the same rule already open at the same position with the
+/// same atomicity (in a grammar without stack operations that is an infinite recursion).
 pub fn vm_reentry() -> Option<(String, usize)> {
     VM_REENTRY.with(|r| r.borrow().clone())
 }
@@ -158,13 +159,13 @@ pub(crate) fn repeat_iter(before: usize, after: usize) {
 pub struct VmRuleGuard(bool);
 
 /// Called by the VM at the top of `parse_rule`.
-pub fn vm_rule_guard(rule: &str, pos: usize) -> VmRuleGuard {
+pub fn vm_rule_guard(rule: &str, pos: usize, atomicity: u8) -> VmRuleGuard {
     if !is_enabled() {
         return VmRuleGuard(false);
     }
     VM_OPEN.with(|o| {
         let mut o = o.borrow_mut();
-        if o.iter().any(|(r, p)| *p == pos && r == rule) {
+        if o.iter().any(|(r, p, a)| *p == pos && *a == atomicity && r == rule) {
             VM_REENTRY.with(|r| {
                 let mut r = r.borrow_mut();
                 if r.is_none() {
@@ -172,7 +173,7 @@ pub fn vm_rule_guard(rule: &str, pos: usize) -> VmRuleGuard {
                 }
             });
         }
-        o.push((String::from(rule), pos));
+        o.push((String::from(rule), pos, atomicity));
     });
     emit(|| Event::VmRuleEnter {
         rule: String::from(rule),
